@@ -334,6 +334,12 @@ def body(env, cfg):
             num.ctrlpoints = [2 * pt for pt in num.ctrlpoints]
     elif op == "copy":
         for cp in (_copy.copy(c), _copy.deepcopy(c)):
+            cp.knotvector.shift(2)  # the copy's own knot vector object, changed in place before anything else
+            cp.knotvector.shift(-2)
+            probe = _copy.deepcopy(cp)
+            probe.knotvector.scale(3)
+            env.holds("a copy does not share its KnotVector object with the original",
+                      cp.knotvector is not c.knotvector and probe.knotvector is not c.knotvector and list(c.knotvector) == list(kv.U))
             env.holds("a copy has the same state", list(cp.knotvector) == list(c.knotvector) and len(cp.ctrlpoints) == len(c.ctrlpoints)
                       and (cp.weights is None) == (c.weights is None))
             env.eq("copy: same control points", list(cp.ctrlpoints), list(c.ctrlpoints))
